@@ -5,7 +5,7 @@
    by the correspondence and the oracle only (see theorems.json). *)
 From Coq Require Import SpecFloat.
 Require Import Base Value Float PrintOptions ParseOptions Utf8 Reader Scan Num NumberOps Parser.
-Require Import ReaderProofs ScanProofs TokenProofs RoundtripProofs OptionProofs.
+Require Import ReaderProofs ScanProofs TokenProofs RoundtripProofs OptionProofs FrameProofs.
 
 (* nil and t *)
 Theorem C08_nil : forall ro,
@@ -121,6 +121,51 @@ Theorem C08_token_frame_partial : forall alpha fast std_parse ro1 ro2 fuel b r,
   parse_token ro1 alpha fast std_parse fuel b r = parse_token ro2 alpha fast std_parse fuel b r.
 Proof. exact parse_token_frame. Qed.
 Print Assumptions C08_token_frame_partial.
+
+(* The whole-input frame: two option sets that differ only in options the input
+   does not exercise read the whole input identically - same value, same error,
+   same position - from every source. "Does not exercise" is a sound condition
+   on the bytes of the input W: an option is not exercised when the byte its
+   tokens begin with does not occur in W ('#' for #:name and #%name, a digit
+   for leading-digit symbols, the double quote for the string syntax, '[' for
+   brackets, ':' for both colon keyword spellings, '?' for the character
+   syntax), and the nil / t treatments are not exercised when W has no 'n' /
+   no 't'. Each hypothesis reads: if the byte occurs, the option is the same
+   in both sets. Proved by walking the parser with the invariant that the
+   bytes still to be read occur in W and that every scanned symbol consists of
+   bytes of W. *)
+Theorem C08_input_frame : forall alpha fast std_parse ro1 ro2 (W : bytes) k,
+  (In 35 W -> ro_kw_octo ro1 = ro_kw_octo ro2 /\ ro_racket ro1 = ro_racket ro2) ->
+  (forall b, In b W -> is_digit b = true -> ro_digit ro1 = ro_digit ro2) ->
+  (In 34 W -> ro_string ro1 = ro_string ro2) ->
+  (In 91 W -> ro_brackets ro1 = ro_brackets ro2) ->
+  (In 58 W -> ro_kw_prefix ro1 = ro_kw_prefix ro2 /\ ro_kw_postfix ro1 = ro_kw_postfix ro2) ->
+  (In 63 W -> ro_char ro1 = ro_char ro2) ->
+  (In 110 W -> ro_nil ro1 = ro_nil ro2) ->
+  (In 116 W -> ro_t ro1 = ro_t ro2) ->
+  from_trait ro1 alpha fast std_parse k (bytes_events W) = from_trait ro2 alpha fast std_parse k (bytes_events W).
+Proof.
+  intros alpha fast std_parse ro1 ro2 W k H1 H2 H3 H4 H5 H6 H7 H8.
+  exact (from_trait_frame W alpha fast std_parse ro1 ro2 H1 H2 H3 H4 H5 H6 H7 H8 k).
+Qed.
+Print Assumptions C08_input_frame.
+
+(* the hypotheses are satisfiable by option sets that do differ: the default and the
+   Emacs Lisp options differ in seven fields, none of which "(a (b . c) 'd)" exercises *)
+Example C08_input_frame_nonvacuous :
+  let W := s2b "(a (b . c) 'd)" in
+  default_ro <> elisp_ro /\
+  ~ In 35 W /\ (forall b, In b W -> is_digit b = false) /\ ~ In 34 W /\ ~ In 91 W /\ ~ In 58 W /\ ~ In 63 W /\ ~ In 110 W /\ ~ In 116 W /\
+  from_trait default_ro (fun _ => true) true dec_to_f64 SrcIo (bytes_events W) =
+  from_trait elisp_ro (fun _ => true) true dec_to_f64 SrcIo (bytes_events W).
+Proof.
+  cbv zeta. split; [discriminate|].
+  assert (Hn : forall x, In x (s2b "(a (b . c) 'd)") -> x = 40 \/ x = 97 \/ x = 32 \/ x = 98 \/ x = 46 \/ x = 99 \/ x = 41 \/ x = 39 \/ x = 100).
+  { intros x H. cbn in H. repeat (destruct H as [<-|H]; [tauto|]). destruct H. }
+  repeat split; try (intros H; apply Hn in H; repeat (destruct H as [H|H]; [discriminate H|]); discriminate H).
+  all: try (intros b H; apply Hn in H; repeat (destruct H as [->|H]; [reflexivity|]); subst b; reflexivity).
+  all: try (vm_compute; reflexivity).
+Qed.
 
 (* the same text under different options *)
 Example C08_nonvacuous :
